@@ -126,11 +126,12 @@ def lowerS (s : List Char) : List Char := s.map asciiLower
 
 abbrev Matcher := Option (Name → Bool)
 
-/-- `_get_matcher` (587-602) with `_match_literal`; compiled parts use `re.match` -/
+/-- `_get_matcher` (587-602) with `_match_literal`; compiled parts are applied with
+    `fullmatch` (the D14 repair; it was `re.match`, whose `$` accepts before a final newline) -/
 def getMatcher (cs : Bool) : Option PPat → Matcher
   | none => none
   | some (.lit s) => some (fun a => if cs then a == s else lowerS a == lowerS s)
-  | some (.re _ r) => some (fun a => r.prefixmatch a)
+  | some (.re _ r) => some (fun a => r.fullmatch a)
 
 def Matcher.test (m : Matcher) (n : Name) : Bool :=
   match m with
@@ -249,15 +250,18 @@ def isExcluded (w : WCtx) (v : Y) : Bool := w.excl.any (fun r => r.fullmatch (ex
 def formatPath (w : WCtx) (dirOnly : Bool) (v : Y) : List Char :=
   if dirOnly || (w.mark && v.isDir) then pjoin v.path [] else v.path
 
-/-- `re_pathlib_norm.sub('', path)` with the (always Windows, D16) regex
-    `(?:((?<=^)|(?<=[\\/]))\.(?:[\\/]|$))+` -/
+/-- `re_pathlib_norm.sub('', path)` with the regex of this host (since the D16 repair the
+    Windows one is held only under FORCEWIN, which REALPATH clears on POSIX):
+    `(?:((?<=^)|(?<=/))\.(?:/|$))+` — only `/` separates; `$` also holds before a final newline -/
 def pathlibDots : Bool → List Char → List Char
   | _, [] => []
   | b, [c] => if b && c = '.' then [] else [c]
   | b, c :: d :: r' =>
     if b && c = '.' then
-      if d = '/' || d = '\\' then pathlibDots true r' else c :: pathlibDots false (d :: r')
-    else c :: pathlibDots (c = '/' || c = '\\') (d :: r')
+      if d = '/' then pathlibDots true r'
+      else if d = '\n' && r'.isEmpty then [d]
+      else c :: pathlibDots false (d :: r')
+    else c :: pathlibDots (c = '/') (d :: r')
 
 /-- `_pathlib_norm` (801-805) on this host (`seps = ('/',)`) -/
 def pathlibNorm (p : List Char) : List Char :=
@@ -351,7 +355,7 @@ def parsePatterns (g : GInit) (expansions : List (List (List Char))) (forceNegat
            else .ok o) with
     | .error e => .error e
     | .ok o =>
-      let o := if g.nodir && !forceNegate then { o with npatterns := o.npatterns ++ [Frag.noWinDir] } else o
+      let o := if g.nodir && !forceNegate then { o with npatterns := o.npatterns ++ [Frag.noNixDir] } else o
       if !forceNegate && o.pattern.length ≤ 1 && !g.flags.nodotdir && !o.nounique && !(g.pathlib && g.scandotdir) then
         .ok { o with nounique := true }
       else .ok o
